@@ -365,6 +365,20 @@ Proof.
   f_equal. exact (deliver_gate sigf getf n k full f s (ODelivered d) b sg Hk Hs Hst eq_refl E).
 Qed.
 
+(* "every request with another signature is rejected" is false as stated too: the proxy's
+   tear-down notice (Gone, sent by topicProxyGone) is honoured before the signature is looked at *)
+Definition every_mismatch_rejected_statement : Prop :=
+  forall (sigf : list str -> str) s m full,
+    smem (q_node m) (n_peers s) = true -> q_sig m <> cur_sig sigf s ->
+    snd (topic_master sigf s m full) = ORejectedSig.
+
+Lemma every_mismatch_rejected_refuted : ~ every_mismatch_rejected_statement.
+Proof.
+  intros H.
+  specialize (H (fun l => concat l) w_node (mkReq [97]%N [] ProxyReqLeave w_t None false true) false eq_refl).
+  cbn in H. assert (E : OGone = ORejectedSig) by (apply H; discriminate). discriminate.
+Qed.
+
 (* ---------------- the ring of Pure/Ring.v as [sigf] ---------------- *)
 Section WithRing.
   Variable hash : str -> N.
